@@ -62,11 +62,20 @@ impl Ev {
 #[derive(Clone, Default)]
 pub struct RecCallback {
     pub log: Arc<Mutex<Vec<Ev>>>,
+    /// index -> canonical conflict hash: DefaultKeyBuilder seeds its conflict hasher at random per
+    /// instance, so what the cache reports is mapped to the table the model works with
+    pub canon: Arc<Mutex<Option<std::collections::HashMap<u64, u64>>>>,
 }
 
 impl RecCallback {
     pub fn take(&self) -> Vec<Ev> {
         std::mem::take(&mut *self.log.lock())
+    }
+    pub fn canon_conflict(&self, index: u64, conflict: u64) -> u64 {
+        match self.canon.lock().as_ref() {
+            Some(m) => m.get(&index).copied().unwrap_or(conflict),
+            None => conflict,
+        }
     }
 }
 
@@ -90,14 +99,14 @@ impl stretto::CacheCallback for RecCallback {
     fn on_evict(&self, item: stretto::Item<Val>) {
         let (ttl, created) = time_parts(&item);
         self.log.lock().push(match item.val {
-            Some(v) => Ev::Evict(v, item.index, item.conflict, item.cost, ttl, created),
+            Some(v) => Ev::Evict(v, item.index, self.canon_conflict(item.index, item.conflict), item.cost, ttl, created),
             None => Ev::Empty("evict"),
         });
     }
     fn on_reject(&self, item: stretto::Item<Val>) {
         let (ttl, created) = time_parts(&item);
         self.log.lock().push(match item.val {
-            Some(v) => Ev::Reject(v, item.index, item.conflict, item.cost, ttl, created),
+            Some(v) => Ev::Reject(v, item.index, self.canon_conflict(item.index, item.conflict), item.cost, ttl, created),
             None => Ev::Empty("reject"),
         });
     }
